@@ -109,6 +109,9 @@ func (e *Engine) verifyFunc(key string) (res *FuncResult) {
 	for _, flag := range strings.Fields(c.Opts["use"]) {
 		vc.assume(Var(flag, BoolS))
 	}
+	for _, ln := range strings.Fields(c.Opts["lemmas"]) {
+		vc.assume(x.lemmaAxiom(ln, st))
+	}
 	// vacuity: the preconditions must be satisfiable
 	cov := vc.oblige("cover", "cover:requires", True, x.pos(fi.Decl))
 	cov.Status = ""
@@ -323,6 +326,29 @@ func (e *Engine) verifyLemma(l *Lemma) *FuncResult {
 	for _, r := range l.Requires {
 		vc.assume(x.evalSpecBool(r, sc, st))
 	}
+	if l.Induct != "" {
+		// induction hypothesis: for n > 0 the lemma holds at n-1 (same other parameters). For n <= 0
+		// nothing is assumed, so the statement is proved for every integer n.
+		nv, ok := sc.names[l.Induct]
+		if !ok || nv.Tm.S != IntS {
+			panic(engErr("lemma %s: induct parameter %q must be an Int parameter", l.Name, l.Induct))
+		}
+		sc1 := &SpecScope{names: map[string]*Value{}, old: st}
+		for k, v := range sc.names {
+			sc1.names[k] = v
+		}
+		sc1.names[l.Induct] = &Value{Tm: Sub(nv.Tm, IntLit(1))}
+		var hyp, con []*Term
+		for _, r := range l.Requires {
+			hyp = append(hyp, x.evalSpecBool(r, sc1, st))
+		}
+		for _, en := range l.Ensures {
+			con = append(con, x.evalSpecBool(en, sc1, st))
+		}
+		// the preconditions carry over to n-1 (proved), so the conclusion at n-1 may be used directly
+		x.oblige(st, "lemma", "ih-requires", Implies(Gt(nv.Tm, IntLit(0)), And(hyp...)), nil)
+		vc.assume(Implies(Gt(nv.Tm, IntLit(0)), And(con...)))
+	}
 	cov := vc.oblige("cover", "cover:requires", True, "")
 	cov.Status = ""
 	cov.Cover = true
@@ -429,4 +455,48 @@ func (x *Exec) evalEnsuresAt(en Clause, sc *SpecScope, st *State) (res *Term) {
 		}
 	}()
 	return x.evalSpecBool(en, sc, st)
+}
+
+// lemmaAxiom states a (separately verified) lemma as a quantified assumption.
+func (x *Exec) lemmaAxiom(name string, st *State) *Term {
+	var l *Lemma
+	for _, c := range x.eng.db.Lemmas {
+		if c.Name == name {
+			l = c
+		}
+	}
+	if l == nil {
+		panic(engErr("unknown lemma %q", name))
+	}
+	sc := &SpecScope{names: map[string]*Value{}, old: st}
+	var vars []*Term
+	for i, p := range l.Params {
+		v := Var("lem."+l.Name+"."+p, l.Sorts[i])
+		vars = append(vars, v)
+		sc.names[p] = &Value{Tm: v}
+	}
+	x.vc.noDefine++
+	defer func() { x.vc.noDefine-- }()
+	var hyp, con []*Term
+	for _, r := range l.Requires {
+		hyp = append(hyp, x.evalSpecBool(r, sc, st))
+	}
+	for _, en := range l.Ensures {
+		con = append(con, x.evalSpecBool(en, sc, st))
+	}
+	var pats []*Term
+	for _, pc := range l.Patterns {
+		var ts []*Term
+		for _, src := range splitTop(pc.Src, ',') {
+			cl := pc
+			cl.Src = strings.TrimSpace(src)
+			ts = append(ts, x.evalSpec(parseSpec(cl), sc, st).Tm)
+		}
+		if len(ts) == 1 {
+			pats = append(pats, ts[0])
+		} else {
+			pats = append(pats, mk("mpat", "", BoolS, nil, ts...))
+		}
+	}
+	return Forall(vars, Implies(And(hyp...), And(con...)), pats...)
 }
